@@ -1199,6 +1199,17 @@ func sigPairs(ps, cs [][]KP) string {
 	return ""
 }
 
+// sig: known-finding signature, from the input only.  A relation inside an EMBEDDED struct preloaded by
+// name with its own conditions together with Preload(clause.Associations, ...): parsePreloadMap writes
+// both into preloadMap[embedded][relation], the last map entry visited wins, so the relation's own
+// conditions are dropped in a map-order dependent share of the runs.
+func sig(in Input) string {
+	if in.Both && strings.Contains(in.Rel, ".") && in.Cond.Kind != "all" && in.Cond.Kind != "" {
+		return "embedded-relation-named-preload-with-associations"
+	}
+	return ""
+}
+
 // formerShape classifies inputs that hit one of the four defects fixed in /repo (5d340d3: identity
 // keys joined with '_' without escaping, NULL / zero printed as the text nil; 1c8b2be: empty IN over
 // several columns).  It is computed from the input tables only and is used ONLY for the
@@ -2084,7 +2095,7 @@ func main() {
 			}
 			nontriv := att > 0 && (len(distinctSets) >= 2 || total > att)
 			out.Add(lib.Case{Term: o.term(), JSON: map[string]interface{}{"input": in, "observed": o},
-				Sig: "", Kind: kind, Shape: shapeOf(in) + "|" + o.Rel, Nontriv: nontriv})
+				Sig: sig(in), Kind: kind, Shape: shapeOf(in) + "|" + o.Rel, Nontriv: nontriv})
 			out.Count("family", in.Fam)
 			out.Count("relation", fams[in.Fam].rels()[strings.Split(o.Rel, ".")[len(strings.Split(o.Rel, "."))-1]].Kind)
 			out.Count("mode", o.Mode)
